@@ -1211,6 +1211,7 @@ fn bytes_stream(driver: &Driver, seed: u64, n: u64) -> Stream {
             let mut marker = 700_000u64;
             let nops = 3 + rng.usize(9);
             let mut saves = 0;
+            let mut late = 0;
             for step in 0..nops + 1 {
                 let last = step == nops;
                 let k = if last { 99 } else { rng.below(100) };
@@ -1221,6 +1222,29 @@ fn bytes_stream(driver: &Driver, seed: u64, n: u64) -> Stream {
                     ex.values.insert(marker, v);
                     (marker, val)
                 };
+                // the catalog or the page tree root replaced by something that does not load as such — the next
+                // save fails *after* writing its revision — or repaired again
+                if !last && rng.chance(1, 8) {
+                    let id = if rng.chance(2, 3) { 1 } else { 2 };
+                    let (m, val) = if rng.chance(1, 2) {
+                        fresh(&mut rng, &mut ex)
+                    } else {
+                        marker += 1;
+                        let v = if id == 1 {
+                            PVal::Dict(vec![("Type".into(), PVal::Name("Catalog".into())), ("Pages".into(), PVal::Ref(2, 0)), ("Marker".into(), PVal::Int(marker as i64))])
+                        } else {
+                            PVal::Dict(vec![("Type".into(), PVal::Name("Pages".into())), ("Kids".into(), PVal::Arr(vec![])), ("Count".into(), PVal::Int(0)), ("Marker".into(), PVal::Int(marker as i64))])
+                        };
+                        let val = pval_to_val(&v, true);
+                        ex.values.insert(marker, v);
+                        (marker, val)
+                    };
+                    let (_, a, _) = ex.apply(&HOp::Update(id, m, false));
+                    touched.insert(id);
+                    ops.push(format!("u={}={}", id, show_val(&val)));
+                    ans.push(a);
+                    continue;
+                }
                 if k < 20 {
                     let (m, val) = fresh(&mut rng, &mut ex);
                     let (_, a, _) = ex.apply(&HOp::Create(m));
@@ -1263,8 +1287,40 @@ fn bytes_stream(driver: &Driver, seed: u64, n: u64) -> Stream {
                 } else if k >= 88 && (saves < 3 || last) {
                     saves += 1;
                     let before = ex.last_bytes.len();
+                    // the last save is mostly a retry after repair: the revisions failed saves left behind show up
+                    if last && rng.chance(3, 4) {
+                        let broken = {
+                            let root = ex.trailer.root.get_ref().get_inner();
+                            let res = ex.storage.resolver();
+                            res.get::<pdf::object::Catalog>(Ref::new(root)).is_err()
+                        };
+                        if broken {
+                            for id in [1u64, 2] {
+                                marker += 1;
+                                let v = if id == 1 {
+                                    PVal::Dict(vec![("Type".into(), PVal::Name("Catalog".into())), ("Pages".into(), PVal::Ref(2, 0)), ("Marker".into(), PVal::Int(marker as i64))])
+                                } else {
+                                    PVal::Dict(vec![("Type".into(), PVal::Name("Pages".into())), ("Kids".into(), PVal::Arr(vec![])), ("Count".into(), PVal::Int(0)), ("Marker".into(), PVal::Int(marker as i64))])
+                                };
+                                let val = pval_to_val(&v, true);
+                                ex.values.insert(marker, v);
+                                let (_, a, _) = ex.apply(&HOp::Update(id, marker, false));
+                                touched.insert(id);
+                                ops.push(format!("u={}={}", id, show_val(&val)));
+                                ans.push(a);
+                            }
+                        }
+                    }
+                    // does the catalog load as a catalog (its page tree root included) in the current state? The
+                    // typed reader's answer is an input of the model (`OpB.save typed`), asked independently of `save`
+                    let typed = {
+                        let root = ex.trailer.root.get_ref().get_inner();
+                        let res = ex.storage.resolver();
+                        res.get::<pdf::object::Catalog>(Ref::new(root)).is_ok()
+                    };
                     let (_, a, _) = ex.apply(&HOp::Save);
-                    ops.push("s".into());
+                    ops.push(format!("s={}", if typed { 1 } else { 0 }));
+                    if !typed { late += 1; }
                     if a.starts_with("ok") {
                         ans.push(format!("ok/{}", crate::driver::hex(&ex.last_bytes[before..])));
                     } else {
@@ -1272,6 +1328,7 @@ fn bytes_stream(driver: &Driver, seed: u64, n: u64) -> Stream {
                     }
                 }
             }
+            let _ = late;
             Ok((ops, ans))
         }));
         let info = if base.has_info { show_val(&pval_to_val(&info_val(), false)) } else { "n".to_string() };
@@ -1279,7 +1336,13 @@ fn bytes_stream(driver: &Driver, seed: u64, n: u64) -> Stream {
         match r {
             Ok(Ok((ops, ans))) => {
                 st.count(&format!("saves={}", ans.iter().filter(|a| a.starts_with("ok/")).count()));
-                st.count(&format!("failed-saves={}", ops.iter().zip(ans.iter()).filter(|(o, a)| *o == "s" && !a.starts_with("ok/")).count()));
+                st.count(&format!("failed-saves={}", ops.iter().zip(ans.iter()).filter(|(o, a)| o.starts_with("s=") && !a.starts_with("ok/")).count()));
+                st.count(&format!("saves-failing-after-the-write={}", ops.iter().filter(|o| *o == "s=0").count()));
+                let first_late = ops.iter().position(|o| o == "s=0");
+                let retried = first_late.map(|p| ops.iter().zip(ans.iter()).skip(p + 1).any(|(o, a)| o.starts_with("s=") && a.starts_with("ok/"))).unwrap_or(false);
+                if first_late.is_some() {
+                    st.count(if retried { "late-failure=then-a-successful-save" } else { "late-failure=last-word" });
+                }
                 reqs.push(format!("c09.bytes {} {} {} {}", base.request_fields(), info, ids, if ops.is_empty() { "-".to_string() } else { ops.join(";") }));
                 imps.push(ans.join(";"));
             }
@@ -1298,7 +1361,7 @@ fn bytes_stream(driver: &Driver, seed: u64, n: u64) -> Stream {
 
 /// the byte-level open path of the model (`OpenBytes.openB`) on whole files — generated bases and what
 /// `save` made of them — against `Backend::read_xref_table_and_trailer`
-fn open_stream(driver: &Driver, seed: u64, n: u64) -> Stream {
+fn open_stream(driver: &Driver, seed: u64, n: u64, thorough: bool) -> Stream {
     use pdf::backend::Backend;
     let mut st = Stream::new("c09.open", true);
     let real = |bytes: &Vec<u8>| -> String {
@@ -1364,11 +1427,92 @@ fn open_stream(driver: &Driver, seed: u64, n: u64) -> Stream {
             imps.push(real(&f));
         }
     }
+    // large tables: sections of hundreds (thorough: thousands) of entries, classic and stream, one or two revisions
+    // linked by /Prev, subsections cut at random places, freed numbers, members of object streams; and the one-section
+    // stream `save` writes on top (`/Index [0 n]` with n in the thousands)
+    let nbig = if thorough { 60 } else { 14 };
+    for case in 0..nbig {
+        let mut rng = Rng::derive(seed, "c09.open.big", case);
+        let n = if thorough {
+            match case % 4 { 0 => 41 + rng.usize(400), 1 => 400 + rng.usize(1200), 2 => 1500 + rng.usize(2000), _ => 3000 + rng.usize(2500) }
+        } else {
+            match case % 3 { 0 => 41 + rng.usize(80), 1 => 120 + rng.usize(200), _ => 300 + rng.usize(300) }
+        } as u64;
+        let bytes = big_file(&mut rng, n);
+        st.count(&format!("file=big({})", match n { 0..=119 => "41-119 objects", 120..=399 => "120-399", 400..=1499 => "400-1499", 1500..=2999 => "1500-2999", _ => "3000+" }));
+        reqs.push(format!("c09.open {}", crate::driver::hex(&bytes)));
+        imps.push(real(&bytes));
+        // a save on top: the whole table again as one stream section
+        let saved = catch_unwind(AssertUnwindSafe(|| -> Option<Vec<u8>> {
+            let (mut stg, mut tr) = open_plain(&bytes).ok()?;
+            stg.update(PlainRef { id: 3, gen: 0 }, W(dict_val(900_000 + case as i64, "Big"))).ok()?;
+            stg.create(W(dict_val(900_100 + case as i64, "New"))).ok()?;
+            stg.save(&mut tr).ok().map(|b| b.to_vec())
+        }));
+        if let Ok(Some(f)) = saved {
+            st.count("file=big-saved");
+            reqs.push(format!("c09.open {}", crate::driver::hex(&f)));
+            imps.push(real(&f));
+        } else {
+            st.count("file=big-save-failed");
+        }
+    }
     let resp = driver.ask(&reqs);
     for ((rq, m), i) in reqs.iter().zip(resp.iter()).zip(imps.iter()) {
         st.case(rq, m, i, i.starts_with("ok"));
     }
     st
+}
+
+/// a file with `n` numbers: catalog, page tree root, small dictionaries, some numbers freed, (stream format) some
+/// compressed in object streams; optionally a second revision that rewrites and frees scattered numbers
+fn big_file(rng: &mut Rng, n: u64) -> Vec<u8> {
+    let stream_fmt = rng.chance(1, 2);
+    let prefix: &[u8] = if rng.chance(1, 4) { b"%junk in front\n" } else { b"" };
+    let mut w = PdfWriter::new(prefix, "1.7");
+    w.free(0, 0, 65535);
+    w.object(1, 0, b"<< /Type /Catalog /Pages 2 0 R >>");
+    w.object(2, 0, b"<< /Type /Pages /Kids [] /Count 0 >>");
+    w.object(3, 0, b"<< /Marker 3 >>");
+    let mut id = 4u64;
+    // object streams take their own number behind the members
+    while id <= n {
+        if stream_fmt && rng.chance(1, 12) && id + 12 < n {
+            let k = 2 + rng.below(9);
+            let members: Vec<(u64, Vec<u8>)> = (0..k).map(|j| (id + j, format!("<< /Marker {} >>", id + j).into_bytes())).collect();
+            w.object_stream(id + k, &members, if rng.chance(1, 2) { StmFilter::Flate } else { StmFilter::None }, b"\n", "");
+            id += k + 1;
+        } else if rng.chance(1, 15) {
+            w.free(id, 0, 1 + rng.below(3));
+            id += 1;
+        } else if rng.chance(1, 40) {
+            // a number that is simply not mentioned: the section is split there
+            id += 1;
+        } else {
+            w.object(id, 0, format!("<< /Marker {} >>", id).as_bytes());
+            id += 1;
+        }
+    }
+    let size = n + 2;
+    let cuts: Vec<usize> = (0..rng.usize(6)).map(|_| rng.usize(n as usize)).collect();
+    w.finish(if stream_fmt { XrefFormat::Stream } else { XrefFormat::Classic }, size, "/Root 1 0 R", &cuts, n + 1);
+    if rng.chance(1, 2) {
+        // second revision: every so-many-th number rewritten or freed, its own (sparse) section, /Prev
+        let stride = 2 + rng.below(9);
+        let mut j = 5 + rng.below(stride);
+        while j <= n {
+            if rng.chance(1, 6) {
+                w.free(j, 0, 7);
+            } else {
+                w.object(j, 0, format!("<< /Marker {} /Rev 2 >>", j).as_bytes());
+            }
+            j += stride;
+        }
+        let fmt2 = if stream_fmt && rng.chance(2, 3) { XrefFormat::Stream } else { XrefFormat::Classic };
+        let (size2, xid2) = if matches!(fmt2, XrefFormat::Stream) { (n + 3, n + 2) } else { (size, 0) };
+        w.finish(fmt2, size2, "/Root 1 0 R", &[], xid2);
+    }
+    w.out.clone()
 }
 
 /// `byte_len` through `write_stream`: a table whose largest field is `n` gets /W [1 byte_len(n) …]
@@ -1657,7 +1801,147 @@ fn witnesses() -> Oracle {
         }
         Ok(())
     });
+    // late failure: `Trailer::from_dict` after the revision was appended (the catalog no longer loads)
+    for (name, victim, junk) in [
+        ("late-failure-root-not-a-catalog", 1u64, dict_val(50, "NoPages")),
+        ("late-failure-page-tree-root-not-a-tree", 2u64, PVal::Int(7)),
+    ] {
+        run(name, "late-save-failure-breaks-the-document", &|| late_failure_witness(victim, &junk, false));
+        run(&format!("{}-cached", name), "late-save-failure-breaks-the-document", &|| late_failure_witness(victim, &junk, true));
+    }
+    // an info dictionary the writer refuses (a date out of range): the save fails *before* anything is written
+    run("info-date-invalid-fails-before-the-write", "save-with-unwritable-info-leaves-garbage", &|| {
+        use pdf::object::InfoDict;
+        use pdf::primitive::{Date, TimeRel};
+        let b = witness_base(b"", false, false);
+        let (mut st, mut tr) = open_plain(&b.bytes)?;
+        let new3 = dict_val(54, "New");
+        st.update(PlainRef { id: 3, gen: 0 }, W(new3.clone())).map_err(|e| format!("update: {}", e))?;
+        let date = |month: u8| Date { year: 2024, month, day: 2, hour: 3, minute: 4, second: 5, rel: TimeRel::Universal, tz_hour: 0, tz_minute: 0 };
+        tr.info_dict = Some(InfoDict { creation_date: Some(date(100)), ..Default::default() });
+        if st.save(&mut tr).is_ok() {
+            return Err("save succeeded with month 100 in /CreationDate".into());
+        }
+        if resolved_canon(&st, 3) != new3.canon() {
+            return Err("the pending update is gone after the failed save".into());
+        }
+        tr.info_dict = Some(InfoDict { creation_date: Some(date(12)), ..Default::default() });
+        let bytes = st.save(&mut tr).map_err(|e| format!("save after the date was corrected: {}", e))?.to_vec();
+        if !bytes.starts_with(&b.bytes) {
+            return Err("the base file is not a prefix".into());
+        }
+        // exactly one revision was appended: the failed attempt left nothing
+        let n = bytes.windows(9).filter(|w| *w == b"startxref").count();
+        if n != 2 {
+            return Err(format!("{} startxref in the output, expected the base's and one more", n));
+        }
+        if reload_canon(&bytes, 3) != new3.canon() {
+            return Err(format!("after reload 3 0 R reads {}", reload_canon(&bytes, 3)));
+        }
+        Ok(())
+    });
     or
+}
+
+/// `save` fails after its revision was appended because object `victim` (catalog or page tree root) was replaced
+/// by `junk`; the caller repairs the object and saves again
+fn late_failure_witness(victim: u64, junk: &PVal, cached: bool) -> Result<(), String> {
+    let b = witness_base(b"junk\n", false, false);
+    let original = reload_canon(&b.bytes, victim);
+    let good: PVal = if victim == 1 {
+        PVal::Dict(vec![("Type".into(), PVal::Name("Catalog".into())), ("Pages".into(), PVal::Ref(2, 0)), ("Marker".into(), PVal::Int(52))])
+    } else {
+        PVal::Dict(vec![("Type".into(), PVal::Name("Pages".into())), ("Kids".into(), PVal::Arr(vec![])), ("Count".into(), PVal::Int(0)), ("Marker".into(), PVal::Int(53))])
+    };
+    let new3 = dict_val(51, "New");
+    // what the backend holds after the failed save (a second, identical run: `into_inner` consumes the storage)
+    let failed_backend = {
+        let (mut st, mut tr) = open_plain(&b.bytes)?;
+        st.update(PlainRef { id: victim, gen: 0 }, W(junk.clone())).map_err(|e| format!("update: {}", e))?;
+        st.update(PlainRef { id: 3, gen: 0 }, W(new3.clone())).map_err(|e| format!("update: {}", e))?;
+        if st.save(&mut tr).is_ok() {
+            return Err(format!("save succeeded although {} 0 R is {}", victim, junk.canon()));
+        }
+        st.into_inner()
+    };
+    let go = |cached: bool| -> Result<(Vec<u8>, String, String), String> {
+        if cached {
+            let mut st = Storage::with_cache(b.bytes.clone(), ParseOptions::strict(), pdf::file::SyncCache::new(), pdf::file::SyncCache::new(), NoLog).map_err(|e| format!("{}", e))?;
+            let trd = st.load_storage_and_trailer().map_err(|e| format!("{}", e))?;
+            let mut tr = Trailer::from_primitive(Primitive::Dictionary(trd), &st.resolver()).map_err(|e| format!("trailer: {}", e))?;
+            late_failure_steps(&mut st, &mut tr, victim, junk, &good, &new3)
+        } else {
+            let (mut st, mut tr) = open_plain(&b.bytes)?;
+            late_failure_steps(&mut st, &mut tr, victim, junk, &good, &new3)
+        }
+    };
+    let (bytes, mid3, midv) = go(cached)?;
+    if mid3 != new3.canon() {
+        return Err(format!("after the failed save 3 0 R reads {} in the open document, written {}", mid3, new3.canon()));
+    }
+    if midv != junk.canon() {
+        return Err(format!("after the failed save {} 0 R reads {} in the open document, written {}", victim, midv, junk.canon()));
+    }
+    if !bytes.starts_with(&b.bytes) {
+        return Err("the base file is not a prefix of the output of the retried save".into());
+    }
+    if !failed_backend.starts_with(&b.bytes) {
+        return Err("the base file is not a prefix of the backend after the failed save".into());
+    }
+    if failed_backend.len() == b.bytes.len() {
+        return Err("the save failed before anything was appended: this witness is about the failure after the write".into());
+    }
+    if !bytes.starts_with(&failed_backend) {
+        return Err(format!("the backend after the failed save ({} bytes, base {}) is not a prefix of the output of the retried save ({} bytes)", failed_backend.len(), b.bytes.len(), bytes.len()));
+    }
+    let after3 = reload_canon(&bytes, 3);
+    if after3 != new3.canon() {
+        return Err(format!("after the retried save and reload 3 0 R reads {}", after3));
+    }
+    let afterv = reload_canon(&bytes, victim);
+    if afterv != good.canon() {
+        return Err(format!("after the retried save and reload {} 0 R reads {} instead of {}", victim, afterv, good.canon()));
+    }
+    let other = if victim == 1 { 2 } else { 1 };
+    let untouched = reload_canon(&bytes, other);
+    if untouched != reload_canon(&b.bytes, other) {
+        return Err(format!("untouched {} 0 R changed: {}", other, untouched));
+    }
+    let _ = original;
+    // the bytes left by the failed save: the last revision names a catalog that does not load — a reader is told
+    // so (an error), it does not see a half-written file
+    match open_plain(&failed_backend) {
+        Ok(_) => Err("the backend left by the failed save loads although its catalog is broken".into()),
+        Err(e) if e.starts_with("trailer:") => {
+            // the table of that revision is complete: every object resolves as written
+            let mut st = Storage::with_cache(failed_backend.clone(), ParseOptions::strict(), NoCache, NoCache, NoLog).map_err(|e| format!("{}", e))?;
+            st.load_storage_and_trailer().map_err(|e| format!("table of the failed revision: {}", e))?;
+            let got = resolved_canon(&st, 3);
+            if got != new3.canon() {
+                return Err(format!("in the bytes left by the failed save 3 0 R reads {}", got));
+            }
+            Ok(())
+        }
+        Err(e) => Err(format!("the bytes left by the failed save do not even load as a table: {}", e)),
+    }
+}
+
+fn late_failure_steps<OC: Cache<OCv>, SC: Cache<SCv>>(st: &mut Storage<Vec<u8>, OC, SC, NoLog>, tr: &mut Trailer, victim: u64, junk: &PVal, good: &PVal, new3: &PVal)
+    -> Result<(Vec<u8>, String, String), String> {
+    st.update(PlainRef { id: victim, gen: 0 }, W(junk.clone())).map_err(|e| format!("update: {}", e))?;
+    st.update(PlainRef { id: 3, gen: 0 }, W(new3.clone())).map_err(|e| format!("update: {}", e))?;
+    if st.save(tr).is_ok() {
+        return Err(format!("save succeeded although {} 0 R is {}", victim, junk.canon()));
+    }
+    let mid3 = resolved_canon(st, 3);
+    let midv = resolved_canon(st, victim);
+    // a second attempt without repair fails the same way and must not make things worse
+    if st.save(tr).is_ok() {
+        return Err("the second save succeeded without a repair".into());
+    }
+    st.update(PlainRef { id: victim, gen: 0 }, W(good.clone())).map_err(|e| format!("repair: {}", e))?;
+    let bytes = st.save(tr).map_err(|e| format!("save after the catalog was repaired: {}", e))?.to_vec();
+    Ok((bytes, mid3, midv))
 }
 
 fn witness_stream_base() -> Vec<u8> {
@@ -1689,7 +1973,7 @@ pub fn run(driver: &Driver, seed: u64, thorough: bool, replay: Option<&Value>) -
     rep.oracles.push(witnesses());
     rep.streams.push(bytelen_stream(driver, seed, thorough));
     rep.streams.push(bytes_stream(driver, seed, if thorough { 20_000 } else { 1500 }));
-    rep.streams.push(open_stream(driver, seed, if thorough { 5_000 } else { 300 }));
+    rep.streams.push(open_stream(driver, seed, if thorough { 5_000 } else { 300 }, thorough));
     let (st, or) = histories(driver, seed, 0, if thorough { 60_000 } else { 6000 }, false);
     rep.streams.push(st);
     rep.oracles.push(or);
